@@ -604,9 +604,68 @@ func maxDepth(quick bool) int {
 	return 4
 }
 
+// ---- a function-local nested assignment on a variable that only exists globally -------------------
+
+const globName = "vstruct_glob"
+
+func globalWitness(init int, path string, val value) string {
+	return fmt.Sprintf("D%d global-in-function:%s:%s", init+1, path, val.tok)
+}
+
+// globalCase: the document is a global variable, a function executes `$g.P = V` (which binds a
+// local g: the assignment must not be seen outside the call), then the caller reads the variable as
+// a whole and at P. Both must still show the original document.
+func (e *env) globalCase(init int, path string, val value) {
+	c := e.c
+	w := globalWitness(init, path, val)
+	prog := fmt.Sprintf("function vstruct_h {\n    $%s.%s = %s\n}\nvstruct_h\nout $%s\nout '%s'\nout $%s.%s\n", globName, path, val.src, globName, sep, globName, path)
+	r := mx.Run(prog, &mx.Opt{Setup: func(f *lang.Fork) {
+		lang.GlobalVariables.Set(f.Process, globName, docs[init], types.Json)
+	}})
+	lang.GlobalVariables.Unset(globName)
+	c.P.Transitions++
+	if r.Hang {
+		c.Eval(true, "global-in-function hang")
+		c.Violation("terminates", w, "caller still blocked after ceiling\n"+r.HangStack)
+		return
+	}
+	parts := strings.SplitN(r.Stdout, sep+"\n", 2)
+	orig, _ := parseDoc(docs[init])
+	whole, ok := parseDoc(parts[0])
+	bad := false
+	if !ok || !reflect.DeepEqual(whole, orig) {
+		bad = true
+		c.Violation("global-not-aliased", w, fmt.Sprintf("after the call `out $%s` prints %q, the global was %s", globName, parts[0], docs[init]))
+	} else if len(parts) < 2 || !elementMatches(orig, strings.Split(path, "."), parts[1]) {
+		bad = true
+		el := ""
+		if len(parts) == 2 {
+			el = parts[1]
+		}
+		c.Violation("global-not-aliased", w, fmt.Sprintf("after the call `out $%s` still prints %s but `out $%s.%s` prints %q: the function-local assignment changed the stored value of the global", globName, docs[init], globName, path, el))
+	}
+	if bad {
+		c.Eval(true, "global-in-function VIOLATES")
+	} else {
+		c.Eval(true, "global-in-function ok")
+	}
+}
+
 func run(c *vlib.Ctx) {
 	e := setup(c)
 	ops := allOps()
+	// 72 cases: every start document as a global, every path and value assigned inside a function
+	gi := uint64(0)
+	for init := range docs {
+		for _, p := range paths {
+			for _, v := range values {
+				if c.Mine(gi) {
+					e.globalCase(init, p, v)
+				}
+				gi++
+			}
+		}
+	}
 	depth := maxDepth(c.Quick())
 	type item struct {
 		init int
@@ -656,6 +715,14 @@ func run(c *vlib.Ctx) {
 }
 
 func replay(c *vlib.Ctx, w string) {
+	if f := strings.Fields(w); len(f) == 2 && strings.HasPrefix(f[1], "global-in-function:") {
+		g := strings.Split(f[1], ":")
+		init := int(f[0][1] - '1')
+		if val, ok := valueOf(g[len(g)-1]); ok && len(g) == 3 && init >= 0 && init < len(docs) {
+			setup(c).globalCase(init, g[1], val)
+		}
+		return
+	}
 	init, hist, ok := parseWitness(w)
 	if !ok {
 		fmt.Println("cannot parse witness")
@@ -670,7 +737,7 @@ func replay(c *vlib.Ctx, w string) {
 func init() {
 	vlib.Register(&vlib.Check{
 		ID: "C12", Engine: "E3",
-		Rule:   "variables a and b are injected as json-typed variables (a = D_i, b = D_i+1 for the start documents {\"a\":1,\"b\":{\"c\":\"x\"}}, [1,{\"k\":true}], {\"a\":[1,2]}); breadth-first search over histories of {b = $a, a = $b, $a.P = V, $b.P = V, call of a function (v: json) that assigns 2 at P of its parameter and prints it} with P in {a, b.c, 0, 1.k, a.1, n, b.n, a.5} and V in {2, \"y\", true}, history length <= L (quick 3, thorough 4); each history is replayed as one murex program, both documents are printed before and after the last statement, and the last statement is judged: a copy equals its source, the other variable never changes, a failed assignment changes nothing, after a successful one the path reads back V (converted to string for a string leaf; V itself for a same-type leaf, a new path or a replaced container; for a number or bool leaf of another type only that the leaf keeps its JSON type) and every other path is unchanged, the callee's change is not seen by the caller, and `out $a.P` / `out $b.P` agree with the printed documents; successors with a new (a,b) document pair are enqueued; depth-1 prefixes are dealt out to the workers; non-trivial = the history contains a copy statement before its last statement (the two variables share an origin)",
+		Rule:   "variables a and b are injected as json-typed variables (a = D_i, b = D_i+1 for the start documents {\"a\":1,\"b\":{\"c\":\"x\"}}, [1,{\"k\":true}], {\"a\":[1,2]}); breadth-first search over histories of {b = $a, a = $b, $a.P = V, $b.P = V, call of a function (v: json) that assigns 2 at P of its parameter and prints it} with P in {a, b.c, 0, 1.k, a.1, n, b.n, a.5} and V in {2, \"y\", true}, history length <= L (quick 3, thorough 4); each history is replayed as one murex program, both documents are printed before and after the last statement, and the last statement is judged: a copy equals its source, the other variable never changes, a failed assignment changes nothing, after a successful one the path reads back V (converted to string for a string leaf; V itself for a same-type leaf, a new path or a replaced container; for a number or bool leaf of another type only that the leaf keeps its JSON type) and every other path is unchanged, the callee's change is not seen by the caller, and `out $a.P` / `out $b.P` agree with the printed documents; successors with a new (a,b) document pair are enqueued; depth-1 prefixes are dealt out to the workers; in addition 72 cases put each start document into a global variable, run `$g.P = V` inside a function (which binds a local g) and require that the caller still reads the original document both as a whole and at P; non-trivial = the history contains a copy statement before its last statement (the two variables share an origin)",
 		Run:    run,
 		Replay: replay,
 		Assumptions: []string{
